@@ -20,6 +20,7 @@ CONSTANTS
   FixD12 = FALSE
   Anchors = FALSE
   ExplicitTags = FALSE
+  TagIds = {}
   MaxEvents = 6
   MaxDepth = 3
   MaxDocs = 1
@@ -32,5 +33,6 @@ INVARIANT HE
 INVARIANT HF
 INVARIANT HG
 INVARIANT HA
+INVARIANT HT
 INVARIANT EntriesConsistent
 INVARIANT Complete
